@@ -1,2 +1,3 @@
+@classmethod
 def spec(cls, rate=None, support=None):
     return {'rate': constraints.nonnegreal(rate), 'support': constraints.nonneginteger(support)}
